@@ -476,6 +476,10 @@ func runCanary() string {
 	return prog.RenderGo(v)
 }
 
+// residueCulprit is the first program after which the canary changed (diagnostic only: once the
+// process-wide state is changed every later case fails before it runs).
+var residueCulprit string
+
 func oracleResidue(c ResidueCase, o *h.Obs) *h.Fail {
 	if residueBaseline == "" {
 		residueBaseline = runCanary()
@@ -484,7 +488,7 @@ func oracleResidue(c ResidueCase, o *h.Obs) *h.Fail {
 	o.Key = src
 	o.NonTrivial = true
 	if cv := runCanary(); cv != residueBaseline {
-		return h.Failf("C14|residue|canary-already-changed", "the canary program no longer evaluates to its start-of-process result BEFORE this case ran (an earlier run left residue)\nbaseline %s\nnow      %s", residueBaseline, cv)
+		return h.Failf("C14|residue|canary-already-changed", "the canary program no longer evaluates to its start-of-process result BEFORE this case ran (an earlier run left residue)\nbaseline %s\nnow      %s\nfirst seen changed after the program:\n%s", residueBaseline, cv, residueCulprit)
 	}
 	func() {
 		defer func() { recover() }()
@@ -493,6 +497,9 @@ func oracleResidue(c ResidueCase, o *h.Obs) *h.Fail {
 		vm.ExecuteContext(ctx, env.NewEnv(), nil, src)
 	}()
 	if cv := runCanary(); cv != residueBaseline {
+		if residueCulprit == "" {
+			residueCulprit = src
+		}
 		return h.Failf("C14|residue|a-run-changed-what-fresh-environments-compute", "after this program ran in its own environment, a fixed canary program run in a FRESH environment evaluates differently: executions share hidden mutable state\nprogram:\n%s\ncanary:\n%s\nbefore %s\nafter  %s", src, residueCanary, residueBaseline, cv)
 	}
 	return nil
